@@ -5,6 +5,13 @@
 (* isomorphic whatever ROT is (a cipher state is the number of Adv steps     *)
 (* taken), so the generator runs with a small ROT and the executor scales    *)
 (* `Burst(d, k, dlt)` to k * (1000/2) + dlt messages.                        *)
+(* Modes: "hs" adversary during the handshake; "msg" adversary on the        *)
+(* stream; "clean" none; "dup" full-duplex use - calls taken section by      *)
+(* section (WStage .. WEnc, FlushHdr .. FlushBody, RHeader .. RBody) with    *)
+(* calls of the other halves in between; "conn" brontide.Conn.Write / Read   *)
+(* mixed with the Machine calls and the adversary.  In every mode but "hs"   *)
+(* the reading caller re-examines (Recheck) and drops (Release) the messages *)
+(* it holds.                                                                 *)
 EXTENDS Transport, Json
 CONSTANTS MaxLen,     \* events per behaviour
           MaxAdvG     \* adversary moves per behaviour
@@ -34,6 +41,10 @@ Burst(d, k, dlt, size) ==
       id  == nsent[d] + cnt
   IN /\ BothDone /\ cnt >= 1
      /\ pend[m] = NoPend /\ pipe[d] = <<>> /\ ~closed[d] /\ ~rfail[d] /\ rcv[r] = snd[m]
+     /\ WIdle(m) /\ RIdle(r)
+     \* the executor's burst reads with ReadMessage, re-examines what it holds every 50 messages and drops it
+     /\ held' = [held EXCEPT ![d] = <<>>]
+     /\ cst' = [cst EXCEPT ![d].pure = FALSE]
      /\ snd' = [snd EXCEPT ![m] = Adv(c2)]
      /\ rcv' = [rcv EXCEPT ![r] = Adv(c2)]
      /\ nsent' = [nsent EXCEPT ![d] = id]
@@ -44,7 +55,7 @@ Burst(d, k, dlt, size) ==
             <<Piece(Ct(d, c1, id, "h", HDR, size, ""), 0, HDR),
               Piece(Ct(d, c2, id, "b", size + MAC, IF size = LEN THEN 0 ELSE -1, ""), 0, size + MAC)>>]
      /\ last' = Obs("Burst", m, "")
-     /\ UNCHANGED <<hvars, pend, pipe, closed, rfail, used, reuse, nadv>>
+     /\ UNCHANGED <<hvars, pend, pipe, closed, rfail, used, reuse, nadv, wip, rip, cbuf>>
 
 \* interesting budgets for a writer that times out: around every boundary of header, payload and MAC
 \* (simulation picks uniformly among successors: the step number selects a few of them)
@@ -66,11 +77,18 @@ CutsNow ==
       q  == Pick(ps, 5 * Step + 2) IN
   IF act.k = 0 THEN {}
   ELSE {<<p, n - p>>} \cup (IF p < q THEN {<<p, q - p, n - q>>} ELSE IF q < p THEN {<<q, p - q, n - p>>} ELSE {})
-AdvOk == mode = "msg" /\ nadv < MaxAdvG
+AdvOk == mode \in {"msg", "conn"} /\ nadv < MaxAdvG
 NWrites == nsent["ab"] + nsent["ba"]
 
-GInit == Init /\ hist = <<>> /\ mode \in {"hs", "hs2", "msg", "msg2", "msg3", "clean", "clean2"}
-Mode == IF mode \in {"msg", "msg2", "msg3"} THEN "msg" ELSE IF mode \in {"hs", "hs2"} THEN "hs" ELSE "clean"
+GInit == Init /\ hist = <<>> /\ mode \in {"hs", "hs2", "msg", "msg2", "msg3", "clean", "clean2",
+                                           "dup", "dup2", "dup3", "conn", "conn2", "conn3"}
+Mode == IF mode \in {"msg", "msg2", "msg3", "conn", "conn2", "conn3"} THEN "msg"
+        ELSE IF mode \in {"hs", "hs2"} THEN "hs" ELSE "clean"
+Dup  == mode \in {"dup", "dup2", "dup3"}
+Conn == mode \in {"conn", "conn2", "conn3"}
+CSizesNow == {Pick(<<0, 1, 2, 3, 17, 316, 65535, 65536, 131070, 131071>>, Step), Pick(<<17, 316, 3, 2>>, Step)}
+WantsNow  == {Pick(<<1, 2, 7, 100, 4096, 65535, 70000>>, Step), Pick(<<1, 2, 7, 5>>, 3 * Step + 1)}
+ED(a, m, d) == Ev(a, m, d, "", 0, 0, 0, 0, 0, 0)
 
 GNext ==
   /\ Len(hist) < MaxLen
@@ -95,6 +113,27 @@ GNext ==
           \/ pend[m] # NoPend /\ \E k \in FlushKs(m) :
                Flush(m, k) /\ Rec(Ev("Flush", m, DirOf(m), "", 0, 0, k, 0, 0, 0))
           \/ pend[m] = NoPend /\ pipe[DirOf(m)] # <<>> /\ Flush(m, 5) /\ Rec(Ev("Flush", m, DirOf(m), "", 0, 0, 5, 0, 0, 0))
+     \* full-duplex use: the calls section by section
+     \/ Dup /\ \E m \in Machines :
+          \/ pend[m] = NoPend /\ \E size \in SizesNow : \E v \in (IF size = LEN THEN {Pick(GVals, Step)} ELSE {-1}) :
+               WStage(m, size, v, "") /\ Rec(Ev("WStage", m, DirOf(m), "", size, v, 0, 0, 0, 0))
+          \/ WEnc(m) /\ Rec(ED("WEnc", m, DirOf(m)))
+          \/ pend[m].hl > 0 /\ \E k \in FlushKs(m) :
+               FlushHdr(m, k) /\ Rec(Ev("FlushHdr", m, DirOf(m), "", 0, 0, k, 0, 0, 0))
+          \/ FlushBody(m) /\ Rec(ED("FlushBody", m, DirOf(m)))
+     \/ Dup /\ \E d \in Dirs :
+          \/ pipe[d] # <<>> /\ RHeader(d) /\ Rec(ED("RHeader", Reader(d), d))
+          \/ RBody(d) /\ Rec(ED("RBody", Reader(d), d))
+     \* the caller of the read side looks again at what it holds / drops it
+     \/ Mode # "hs" /\ \E d \in Dirs :
+          \/ held[d] # <<>> /\ Step % 3 = 1 /\ Recheck(d) /\ Rec(ED("Recheck", Reader(d), d))
+          \/ Len(held[d]) >= 2 /\ Step % 5 = 2 /\ Release(d) /\ Rec(ED("Release", Reader(d), d))
+     \* brontide.Conn on top
+     \/ Conn /\ \E m \in Machines : pend[m] = NoPend /\ \E size \in CSizesNow :
+          \E v \in {IF size = LEN THEN Pick(GVals, Step) ELSE -1} :
+               CWrite(m, size, <<>>, v) /\ Rec(Ev("CWrite", m, DirOf(m), "", size, v, 0, 0, 0, 0))
+     \/ Conn /\ \E d \in Dirs : (pipe[d] # <<>> \/ cbuf[Reader(d)].left > 0) /\ \E w \in WantsNow :
+          CRead(d, w) /\ Rec(Ev("CRead", Reader(d), d, "", 0, 0, w, 0, 0, 0))
      \/ \E d \in Dirs :
           \/ (pipe[d] # <<>> \/ Mode = "msg") /\ (Read(d) \/ ReadAfterFailure(d))
                /\ Rec(Ev("Read", Reader(d), d, "", 0, 0, 0, 0, 0, 0))
